@@ -83,6 +83,10 @@ pub enum Mut {
     Flags { more: Option<bool>, oneway: Option<bool>, upgrade: Option<bool> },
     /// send the canonical request of another step at this position
     WrongStep { send: usize },
+    /// as WrongStep, and afterwards: the canonical request of step send+1 (the refused step must not
+    /// have moved the client on: it has to be refused as well), then the canonical request of this
+    /// position (which must still pass)
+    WrongStepThen { send: usize },
     UnknownClientId,
     NoParameters,
     /// the `parameters` member as a whole replaced by a non-object value
@@ -122,6 +126,10 @@ pub struct QCase {
     /// sequence with their steps interleaved in the given order
     #[serde(default)]
     pub jump: Option<(usize, usize, Vec<u8>)>,
+    /// long history: a raw client walks to the point where only End is missing, `many` further
+    /// clients are started (Start only) on other connections, then the first client sends End
+    #[serde(default)]
+    pub many: usize,
     pub sched: SchedCfg,
 }
 
@@ -321,7 +329,7 @@ fn apply(req: &mut Value, m: &Mut) {
         Mut::SetParams(v) => {
             req.as_object_mut().unwrap().insert("parameters".into(), v.clone());
         }
-        Mut::WrongStep { .. } | Mut::Duplicate | Mut::Race { .. } => {}
+        Mut::WrongStep { .. } | Mut::WrongStepThen { .. } | Mut::Duplicate | Mut::Race { .. } => {}
     }
 }
 
@@ -465,6 +473,34 @@ pub fn run_q(case: &QCase) -> (SimEnd, crate::sched::SimStats, QObs) {
             }
             out2.lock().unwrap().jump_failures = fails;
         }
+        // long history: many client ids issued while one client is about to finish
+        if c.many > 0 {
+            let id = net.connect(ConnOpts::default());
+            let mut raw = Raw { net: net.clone(), ctl: ctl.clone(), id, consumed: 0, interleave: false };
+            let mut rec = Vec::new();
+            match walk(&mut raw, 12, &mut rec) {
+                Err(e) => out2.lock().unwrap().jump_failures.push(e),
+                Ok((client_id, prev, strings)) => {
+                    let other = net.connect(ConnOpts::default());
+                    let mut r2 = Raw { net: net.clone(), ctl: ctl.clone(), id: other, consumed: 0, interleave: false };
+                    let start = json!({"method": format!("{}.Start", IFACE)});
+                    for _ in 0..c.many {
+                        let _ = r2.call(&start, false);
+                    }
+                    let end_req = canonical_request(12, &client_id, &prev, &strings);
+                    let (replies, _) = raw.call(&end_req, false);
+                    let last = replies.last().cloned().unwrap_or(Value::Null);
+                    if last.get("error").is_some() || replies.is_empty() {
+                        out2.lock().unwrap().jump_failures.push(format!(
+                            "a canonical client's End, sent after {} other clients had started, was refused: {}",
+                            c.many, last
+                        ));
+                    }
+                    net.client_half_close(other);
+                }
+            }
+            net.client_half_close(id);
+        }
         // real canonical clients
         let mut handles = Vec::new();
         for k in 0..c.canonical {
@@ -493,7 +529,7 @@ pub fn run_q(case: &QCase) -> (SimEnd, crate::sched::SimStats, QObs) {
                 Err(e) => ob.prefix_failed = Some(e),
                 Ok((client_id, prev, strings)) => {
                     let mut req = match &d.m {
-                        Mut::WrongStep { send } => canonical_request(*send, &client_id, &prev, &strings),
+                        Mut::WrongStep { send } | Mut::WrongStepThen { send } => canonical_request(*send, &client_id, &prev, &strings),
                         _ => canonical_request(d.step, &client_id, &prev, &strings),
                     };
                     apply(&mut req, &d.m);
@@ -543,6 +579,22 @@ pub fn run_q(case: &QCase) -> (SimEnd, crate::sched::SimStats, QObs) {
                             ob.request = req;
                             ob.replies = replies;
                             ob.ended = ended;
+                            if let Mut::WrongStepThen { send } = &d.m {
+                                if !ended {
+                                    // the step after the refused one, with canonical parameters as far as known
+                                    // (Test02's canonical argument is the fixed reply of Test01)
+                                    let after_prev = if *send == 1 { json!({"bool": true}) } else { Value::Null };
+                                    let after = canonical_request(*send + 1, &client_id, &after_prev, &strings);
+                                    let (r2, e2) = raw.call(&after, *send + 1 == 11);
+                                    ob.copies.push(r2.last().cloned());
+                                    if !e2 {
+                                        // and the step that was due all along
+                                        let due = canonical_request(d.step, &client_id, &prev, &strings);
+                                        let (r3, _) = raw.call(&due, d.step == 11);
+                                        ob.copies.push(r3.last().cloned());
+                                    }
+                                }
+                            }
                         }
                     }
                 }
@@ -712,6 +764,34 @@ pub fn judge_q(case: &QCase, end: &SimEnd, o: &QObs) -> (Vec<Violation>, bool) {
             }
             continue;
         }
+        if let Mut::WrongStepThen { send } = &d.m {
+            if let Some(Some(r2)) = ob.copies.first() {
+                if r2.get("error").is_none() {
+                    v.push(viol(
+                        "C19",
+                        "refused-step-moved-the-client",
+                        format!(
+                            "client at step {}: {} was refused, but then {} (the step after the refused one) was answered without an error: {}",
+                            STEPS[d.step], STEPS[*send], STEPS[*send + 1], r2
+                        ),
+                    ));
+                }
+            }
+            if d.step != 11 {
+                if let Some(Some(r3)) = ob.copies.get(1) {
+                    if r3.get("error").is_some() {
+                        v.push(viol(
+                            "C19",
+                            "canonical-step-refused-after-deviation",
+                            format!(
+                                "client at step {}: after the refused out-of-order steps {} and {} the canonical {} itself was refused: {}",
+                                STEPS[d.step], STEPS[*send], STEPS[*send + 1], STEPS[d.step], r3
+                            ),
+                        ));
+                    }
+                }
+            }
+        }
         for r in &ob.replies {
             let err = r.get("error").and_then(|e| e.as_str());
             match err {
@@ -754,7 +834,7 @@ pub fn eval_q(case: &QCase) -> RunResult {
     RunResult {
         violations,
         sig: sig.0,
-        nontrivial: case.canonical + case.deviants.len() + case.stalled + case.jump.is_some() as usize >= 1,
+        nontrivial: case.canonical + case.deviants.len() + case.stalled + case.jump.is_some() as usize + case.many >= 1,
         faults: vec![
             ("deviating_request_sent", o.dev.iter().filter(|d| d.reached).count() as u64),
             ("coarse_monotonic_clock", case.coarse_clock as u64),
@@ -932,13 +1012,22 @@ pub fn deviation_space(canon_params: &[Value]) -> Vec<Deviation> {
                 v.push(Deviation { step, m: Mut::WrongStep { send } });
             }
         }
+        // ... and what a refused step leaves behind (only where the parameters of the follow-up steps
+        // do not depend on replies the client has not seen: steps with a client id only, i.e. Test01 and End)
+        if step >= 1 && step != 11 {
+            for send in [1usize, 11] {
+                if send != step && send + 1 != step && step != 0 {
+                    v.push(Deviation { step, m: Mut::WrongStepThen { send } });
+                }
+            }
+        }
     }
     v
 }
 
 pub fn c19_plan(tier: Tier) -> Plan {
     // one raw canonical walk against the real service yields the canonical parameters of every step
-    let probe = QCase { canonical: 0, deviants: vec![], interleave: false, coarse_clock: false, stalled: 0, jump: None, sched: SchedCfg::uniform(1) };
+    let probe = QCase { canonical: 0, deviants: vec![], interleave: false, coarse_clock: false, stalled: 0, jump: None, many: 0, sched: SchedCfg::uniform(1) };
     let (_, _, o) = run_q(&probe);
     let canon = o.canon_params.clone();
     let devs = deviation_space(&canon);
@@ -960,6 +1049,7 @@ pub fn c19_plan(tier: Tier) -> Plan {
                     coarse_clock: false,
                     stalled: 0,
                     jump: None,
+                    many: 0,
                     sched: SchedCfg::random(&mut rng, 1),
                 })
             }),
@@ -974,7 +1064,7 @@ pub fn c19_plan(tier: Tier) -> Plan {
             gen: Box::new(move |idx, seed| {
                 let mut rng = Rng::new(seed);
                 let k = if idx < 16 { idx as usize + 1 } else if rng.chance(1, 6) { rng.range(9, 16) as usize } else { rng.range(2, 8) as usize };
-                Case::Q(QCase { canonical: k, deviants: vec![], interleave: false, coarse_clock: false, stalled: 0, jump: None, sched: SchedCfg::random(&mut rng, 1) })
+                Case::Q(QCase { canonical: k, deviants: vec![], interleave: false, coarse_clock: false, stalled: 0, jump: None, many: 0, sched: SchedCfg::random(&mut rng, 1) })
             }),
         });
     }
@@ -990,7 +1080,7 @@ pub fn c19_plan(tier: Tier) -> Plan {
                 let k = rng.range(1, 6) as usize;
                 let nd = rng.range(1, 3) as usize;
                 let deviants = (0..nd).map(|_| rng.pick(&devs).clone()).collect();
-                Case::Q(QCase { canonical: k, deviants, interleave: rng.chance(2, 3), coarse_clock: false, stalled: 0, jump: None, sched: SchedCfg::random(&mut rng, 1) })
+                Case::Q(QCase { canonical: k, deviants, interleave: rng.chance(2, 3), coarse_clock: false, stalled: 0, jump: None, many: 0, sched: SchedCfg::random(&mut rng, 1) })
             }),
         });
     }
@@ -1012,6 +1102,7 @@ pub fn c19_plan(tier: Tier) -> Plan {
                     coarse_clock: false,
                     stalled: 0,
                     jump: None,
+                    many: 0,
                     sched: SchedCfg::random(&mut rng, 1),
                 })
             }),
@@ -1027,7 +1118,7 @@ pub fn c19_plan(tier: Tier) -> Plan {
             gen: Box::new(move |_idx, seed| {
                 let mut rng = Rng::new(seed);
                 let k = rng.range(2, 6) as usize;
-                Case::Q(QCase { canonical: k, deviants: vec![], interleave: false, coarse_clock: true, stalled: 0, jump: None, sched: SchedCfg::random(&mut rng, 1) })
+                Case::Q(QCase { canonical: k, deviants: vec![], interleave: false, coarse_clock: true, stalled: 0, jump: None, many: 0, sched: SchedCfg::random(&mut rng, 1) })
             }),
         });
     }
@@ -1047,6 +1138,7 @@ pub fn c19_plan(tier: Tier) -> Plan {
                     coarse_clock: false,
                     stalled: rng.range(1, 2) as usize,
                     jump: None,
+                    many: 0,
                     sched: SchedCfg::random(&mut rng, 1),
                 })
             }),
@@ -1078,6 +1170,30 @@ pub fn c19_plan(tier: Tier) -> Plan {
                     coarse_clock: true,
                     stalled: 0,
                     jump: Some((old, new, order)),
+                    many: 0,
+                    sched: SchedCfg::random(&mut rng, 1),
+                })
+            }),
+        });
+    }
+    {
+        // long history: 30..300 client ids issued by one server while a client is about to finish
+        let n = if tier == Tier::Quick { 40 } else { 1_000 };
+        spaces.push(Space {
+            name: "Q.history.many-clients",
+            size: n,
+            exhaustive: false,
+            gen: Box::new(move |idx, seed| {
+                let mut rng = Rng::new(seed);
+                let many = if idx % 4 == 0 { rng.range(30, 63) } else { rng.range(64, 300) } as usize;
+                Case::Q(QCase {
+                    canonical: rng.range(0, 2) as usize,
+                    deviants: vec![],
+                    interleave: false,
+                    coarse_clock: false,
+                    stalled: 0,
+                    jump: None,
+                    many,
                     sched: SchedCfg::random(&mut rng, 1),
                 })
             }),
